@@ -123,8 +123,12 @@ func (s RateLimitedTokenRequestState) FinalizeToken(encryptedtokenResponse []byt
 		return tokens.Token{}, errors.New("invalid token response")
 	}
 
-	// salt = concat(enc, response_nonce)
-	salt := append(s.encapEnc, encryptedtokenResponse[:responseNonceLen]...)
+	// salt = concat(enc, response_nonce), built in fresh storage: encapEnc is a
+	// prefix of the request's encrypted_token_request, so appending to it
+	// would overwrite the bytes that follow it there
+	salt := make([]byte, 0, len(s.encapEnc)+responseNonceLen)
+	salt = append(salt, s.encapEnc...)
+	salt = append(salt, encryptedtokenResponse[:responseNonceLen]...)
 
 	// prk = Extract(salt, secret)
 	prk := s.nameKey.suite.KDF.Extract(salt, s.encapSecret)
